@@ -35,6 +35,23 @@ Proof.
   - intros x Hx. unfold built, file_labels. cbn [a_labels am_get]. destruct (N.eqb_spec x 12) as [E|E]; [unfold SETS_AT in Hx; lia | reflexivity].
 Qed.
 
+(* values outside the domain (sets shorter or longer than 257 entries): the writer treats missing slots as absent and ignores
+   extra ones (`set.get(index)`), so the value read back is the NORMALISED value *)
+Theorem from_archive_built_gen v : length (as_table v) = 257%nat -> from_archive (built v) = Ok (norm_aset v).
+Proof.
+  intros Ht. apply from_archive_layout_gen; [exact Ht | reflexivity | apply layout_built | apply size_built | |].
+  - unfold find_label_address, built, file_labels. cbn [a_labels find snd fst existsb]. rewrite bytes_eqb_refl. reflexivity.
+  - intros x Hx. unfold built, file_labels. cbn [a_labels am_get]. destruct (N.eqb_spec x 12) as [E|E]; [unfold SETS_AT in Hx; lia | reflexivity].
+Qed.
+Theorem round_trip_normalises v :
+  length (as_table v) = 257%nat -> Forall (fun s : oset => s <> []) (as_sets v) ->
+  exists a, build v = Ok a /\ from_archive a = Ok (norm_aset v) /\ wf_aset (norm_aset v).
+Proof.
+  intros Ht Hs. exists (built v). split; [apply build_spec; assumption|]. split; [apply from_archive_built_gen; exact Ht|].
+  split; [exact Ht|]. cbn [norm_aset as_sets]. apply Forall_forall. intros s Hin. apply in_map_iff in Hin.
+  destruct Hin as (s0 & <- & _). apply norm_set_length.
+Qed.
+
 Theorem round_trip_archive v : wf_aset v -> exists a, build v = Ok a /\ from_archive a = Ok v /\ a = built v.
 Proof.
   intros W. exists (built v). split; [|split; [apply from_archive_built; exact W | reflexivity]].
@@ -275,6 +292,15 @@ Theorem round_trip_bytes_final m v :
   wf_aset_bytes v ->
   exists f, serialize m v = Ok f /\ parse f = Ok v /\ (forall v', parse f = Ok v' -> serialize m v' = Ok f).
 Proof. apply round_trip_bytes. intros a W B. apply recs_bin_round_trip; assumption. Qed.
+
+(* serialization is injective on the domain: two values with the same image are equal *)
+Theorem serialize_injective m v1 v2 f :
+  wf_aset_bytes v1 -> wf_aset_bytes v2 -> serialize m v1 = Ok f -> serialize m v2 = Ok f -> v1 = v2.
+Proof.
+  intros W1 W2 S1 S2.
+  destruct (round_trip_bytes_final m v1 W1) as (f1 & E1 & P1 & _). destruct (round_trip_bytes_final m v2 W2) as (f2 & E2 & P2 & _).
+  rewrite S1 in E1. rewrite S2 in E2. inversion E1; inversion E2; subst f1 f2. rewrite P1 in P2. inversion P2. reflexivity.
+Qed.
 
 (* ================================================================== boolean checkers for the well-formedness predicates *)
 Definition str_okb (s : bytes) : bool := andb (negb (existsb (N.eqb 0) s)) (wfbb s).
